@@ -141,12 +141,24 @@ def ndim_case(conds, pname):
 
 
 def obligations(ctx):
-    obs = ctx.contract_obligations("C19")
-    for q, (quant, over, pred, result_axis) in FUNCS.items():
+    out = ctx.contract_obligations("C19")
+    for q in FUNCS:
+        fi = ctx.program.func(q)
+        code = _derive(ctx, q, T.norm(T.FuncLower(ctx.program, fi).term()))
+        ref = _derive(ctx, q, ctx.ref_term(q))
+        # the derivation is independent of the reference; where it cannot follow the code's shape but the code is proven
+        # equivalent to the reference (on which the derivation succeeds), the result carries over
+        out += ctx.settle_roles("C19", q, code, ref)
+    return out
+
+
+def _derive(ctx, q, term):
+    obs = []
+    if True:
+        quant, over, pred, result_axis = FUNCS[q]
         fi = ctx.program.func(q)
         where = ctx.loc(q)
         pname = fi.params[1] if len(fi.params) > 1 else 'points'
-        term = T.norm(T.FuncLower(ctx.program, fi).term())
         seen = set()
         for conds, leaf in branches(term):
             case = ndim_case(conds, pname)
